@@ -1,7 +1,7 @@
 """C06 — BVH + narrow phase = brute force (structural, thin)."""
 from . import scopes
 from ..core.report import DOMAIN_D
-from ..rules import bvh, aabbtree, colliders, unpack, misc2
+from ..rules import generic2, bvh, aabbtree, colliders, unpack, misc2
 
 
 def run(idx, rep, tier):
@@ -26,4 +26,5 @@ def run(idx, rep, tier):
     aabbtree.r_unique(idx, rep)
     colliders.r_coherence(idx, rep, relevant_to="aabb")      # only what the broad phase reads: the pose and the attributes aabb() uses
     misc2.r_dupcond(idx, rep, [m.name for m in idx.lib_modules()], floor=3)
+    generic2.r_indextruth(idx, rep, [m.name for m in idx.lib_modules()], floor=10)
     unpack.r_unpack(idx, rep, floor=6)
